@@ -318,6 +318,11 @@ func (st *c08State) aggFormula(r *Run, tree *c08Node) {
 		}
 		if st.isDefName(tree.Spell) { // a defined range name: the model does the lookup
 			ks = []string{"d:" + hx(tree.Spell) + ":" + hx(st.main())}
+		} else if !strings.Contains(tree.Spell, "rg_") { // spelled ranges: the model resolves them (parseReference)
+			ks = nil
+			for _, a := range strings.Split(tree.Spell, ",") {
+				ks = append(ks, "gr:"+hx(c08Unquote(a))+":"+hx(st.main()))
+			}
 		}
 		op = "agg " + tree.Op + " " + strings.Join(ks, " ") + " | " + tb.String()
 		ln = r.Op(op, raw+" S="+c08SpecStr(c08AggSpec(tree.Op, func() []c08Val { _, s := st.aggCells(tree); return s }())))
@@ -338,10 +343,13 @@ func (st *c08State) aggFormula(r *Run, tree *c08Node) {
 				if i >= len(sizes) {
 					break
 				}
-				if st.isDefName(a) {
+				switch {
+				case st.isDefName(a):
 					spell[a] = "@DG:" + st.main()
-				} else {
+				case strings.HasPrefix(a, "rg_"): // self-describing workbook-level name of the aggregate generator
 					spell[a] = "@G:" + strings.Join(lf.Keys[off:off+sizes[i]], ",")
+				default: // a spelled range: the model resolves it (parseReference)
+					spell[c08Unquote(a)] = "@GR:" + st.main()
 				}
 				off += sizes[i]
 			}
